@@ -28,6 +28,8 @@ type memConn struct {
 	writes int
 	// onWrite (optional) is called after the k-th Write (k = 1, 2, …) has been recorded
 	onWrite func(k int)
+	// failWriteAt > 0: the k-th Write fails (nothing written) and so does every later one
+	failWriteAt int
 }
 
 func newMemConn() *memConn {
@@ -79,6 +81,10 @@ func (c *memConn) Write(p []byte) (int, error) {
 	defer c.mu.Unlock()
 	if c.closed {
 		return 0, errors.New("use of closed connection")
+	}
+	if c.failWriteAt > 0 && c.writes+1 >= c.failWriteAt {
+		c.writes++
+		return 0, errors.New("broken pipe")
 	}
 	c.out = append(c.out, p...)
 	c.writes++
